@@ -197,7 +197,45 @@ func c12Eval(s schema.Type, o *sx.Node) (res string, kept bool) {
 	if hasVal && cls.IsAtom("ok") {
 		res += " " + c12Canon(val)
 	}
-	return res, c12Canon(arg) == before
+	kept = c12Canon(arg) == before
+	if hasVal {
+		// the result belongs to the CALLER (a step handler works on its input): after it was printed the harness writes
+		// into every list and map of it.  A result that shares memory with the schema's state (the decoded defaults) then
+		// shows in GetDefaults (`state`) and in the next evaluation of the same call (`differs`, `after`)
+		func() {
+			defer func() { _ = recover() }()
+			c12Scribble(val, 0)
+		}()
+	}
+	return res, kept
+}
+
+const c12ScribbleMark = "verif: the caller wrote here"
+
+// c12Scribble writes into every []any / map[string]any / map[any]any reachable from a result through such containers.
+func c12Scribble(v any, depth int) {
+	if depth > 40 {
+		return
+	}
+	switch x := v.(type) {
+	case []any:
+		for _, e := range x {
+			c12Scribble(e, depth+1)
+		}
+		if len(x) > 0 {
+			x[0] = c12ScribbleMark
+		}
+	case map[string]any:
+		for _, e := range x {
+			c12Scribble(e, depth+1)
+		}
+		x[c12ScribbleMark] = true
+	case map[any]any:
+		for _, e := range x {
+			c12Scribble(e, depth+1)
+		}
+		x[c12ScribbleMark] = true
+	}
 }
 
 // mkLit (may be nil): the same schema with its objects NOT built by a constructor (struct literals: the decoded-
